@@ -123,7 +123,27 @@ func checkC07(c *Ctx, r *Report, tier string) {
 					continue
 				}
 				cc, ok := cnt.(*ssa.Call)
-				if !ok || cc.Call.StaticCallee() == nil || cc.Call.StaticCallee().Name() != "edgesCount" {
+				if !ok {
+					continue
+				}
+				// the count written inline: len(v.edges[level]) of the same vertex and level
+				if bi, isBi := cc.Call.Value.(*ssa.Builtin); isBi && bi.Name() == "len" && len(cc.Call.Args) == 1 {
+					if l, isL := loadOf(strip(cc.Call.Args[0])); isL {
+						if ia, isIA := l.(*ssa.IndexAddr); isIA && ia.Index == L {
+							if l2, isL2 := loadOf(strip(ia.X)); isL2 {
+								if fa, isFA := l2.(*ssa.FieldAddr); isFA && strip(fa.X) == strip(V) {
+									if fv := structField(fa.X.Type(), fa.Field); fv != nil {
+										if st, isS := fv.Type().Underlying().(*types.Slice); isS && namedOf(st.Elem()) == x.edgeSet && bud == K && guardedBy(i.Block(), ifi, true) {
+											guard = true
+										}
+									}
+								}
+							}
+						}
+					}
+					continue
+				}
+				if cc.Call.StaticCallee() == nil || cc.Call.StaticCallee().Name() != "edgesCount" {
 					continue
 				}
 				if strip(cc.Call.Args[0]) == strip(V) && cc.Call.Args[1] == L && bud == K && guardedBy(i.Block(), ifi, true) {
